@@ -415,6 +415,53 @@ def r5d_exclusive_contributions(repo: Repo, rep):
                                   f"both keep points with {B.show(ops[i].facts)} and {B.show(ops[j].facts)}", f"{ops[i].origin}/{ops[j].origin} overlap")
 
 
+def r3b_flags_from_the_user(repo: Repo, rep):
+    R = rep.rule("R-C10-3b", "`contained` / `disjoint` are declarations of the user: the operators (+, -, &) build the operation with the default, they never compute the flag", floor=3,
+                 why="a flag guessed from bounding boxes switches to the exact additive / subtractive rule for operands that merely have nested boxes")
+    D = repo.cls(f"{DOM}.domain.Domain")
+    n = 0
+    for name in ("__add__", "__sub__", "__and__", "__or__", "__radd__", "__iadd__", "__isub__"):
+        fi = D.methods.get(name)
+        if fi is None:
+            continue
+        n += 1
+        rep.saw(fi)
+        bad = []
+        for c in ast.walk(fi.node):
+            if isinstance(c, ast.Call) and (attr_chain(c.func) or "").split(".")[-1] in ("CutDomain", "UnionDomain", "IntersectionDomain"):
+                for k in c.keywords:
+                    if k.arg in ("contained", "disjoint") and not (isinstance(k.value, ast.Constant) and k.value.value is False):
+                        bad.append(f"{k.arg}={dump(k.value)[:40]}")
+                if len(c.args) > 2:
+                    bad.append(f"third positional argument {dump(c.args[2])[:40]}")
+        rep.check(R, not bad, fi.site(), fi.fq, "the operation is built with the default flag", str(bad), f"flag computed: {bad}")
+    if n == 0:
+        rep.undecided(R, D.module.relpath, D.fq, "domain operators", "none found")
+
+
+def r5e_grid_counts_truncate(repo: Repo, rep):
+    R = rep.rule("R-C10-5e", "per-axis counts of a regular grid are the truncated roots of the requested number (their product never exceeds it): no rounding up", floor=2,
+                 why="round(sqrt(n a/b)) * round(sqrt(n b/a)) can exceed n: under a density the grid then has more than ceil(density * measure) points")
+    for spec in (f"{DOM}.domain2D.parallelogram.Parallelogram", f"{DOM}.domain2D.triangle.Triangle", f"{DOM}.domain2D.shapely_polygon.ShapelyPolygon", f"{DOM}.domain3D.sphere.Sphere",
+                 f"{DOM}.domain3D.trimesh_polyhedron.TrimeshPolyhedron", f"{DOM}.domain2D.circle.Circle"):
+        ci = repo.cls(spec)
+        for fi in ci.methods.values():
+            if "grid" not in fi.name:
+                continue
+            counts = []
+            for n_ in ast.walk(fi.node):
+                if isinstance(n_, ast.Assign) and isinstance(n_.value, ast.Call) and attr_chain(n_.value.func) == "int" and n_.value.args \
+                        and any(isinstance(x, ast.Call) and (attr_chain(x.func) or "").split(".")[-1] in ("sqrt", "cbrt", "pow") or (isinstance(x, ast.BinOp) and isinstance(x.op, ast.Pow)) for x in ast.walk(n_.value.args[0])):
+                    counts.append(n_.value)
+            if not counts:
+                continue
+            rep.saw(fi)
+            up = [dump(c)[:70] for c in counts if any(isinstance(x, ast.Call) and (attr_chain(x.func) or "").split(".")[-1] in ("round", "ceil", "rint") for x in ast.walk(c))]
+            # a deliberate ceil is fine where the surplus is cut or filtered afterwards by the same function's caller for the fixed-n path only - decided by R-C10-5c
+            known_ceil = ci.name in ("Sphere", "TrimeshPolyhedron", "ShapelyPolygon", "Circle")  # box grids that are filtered by membership afterwards
+            rep.check(R, not up or known_ceil, fi.site(), fi.fq, "grid side counts are truncated", str(up[:2]), f"rounded-up grid counts {up[:2]}")
+
+
 def r5b_estimated_volumes(repo: Repo, rep):
     R = rep.rule("R-C10-5b", "domain operations never turn a density into a count through their own volume (it is a documented estimate for union / intersection / non-contained cut / dependent product): "
                  "they sample their operands with the density", floor=4,
@@ -501,6 +548,9 @@ def r7_no_param_cache(repo: Repo, rep):
 
 
 def run(repo: Repo, rep):
+    from .generic import g_arg_constructor_parameters
+    g_arg_constructor_parameters(repo, rep, lambda m: ".domains." in m, floor=25,
+                                 why="a domain that ignores a shape argument or a flag (disjoint, contained) reports another measure")
     r1_r2_formulas(repo, rep)
     r3_composition(repo, rep)
     r4_override(repo, rep)
@@ -509,6 +559,8 @@ def run(repo: Repo, rep):
     r5b_estimated_volumes(repo, rep)
     r5c_density_grids(repo, rep)
     r5d_exclusive_contributions(repo, rep)
+    r3b_flags_from_the_user(repo, rep)
+    r5e_grid_counts_truncate(repo, rep)
     from .c06 import r4c_mesh_outward  # the mesh volume is signed: it is the measure only for outward-facing faces
     r4c_mesh_outward(repo, rep)
     try:
